@@ -372,3 +372,53 @@ Proof.
   unfold read_meta. simpl.
   rewrite !map_snd_combine; [reflexivity | |]; symmetry; eapply Forall2_len; eassumption.
 Qed.
+
+(* ------------------------------------------------------------------------- *)
+(* a store re-opened on an existing file: reloaded individuals                 *)
+(* ------------------------------------------------------------------------- *)
+Section PvInd.
+  Context (P : pv -> Prop)
+          (Hnull : P PNull) (Hbool : forall b, P (PBool b)) (Hnum : forall n, P (PNum n))
+          (Hind : forall id, P (PInd id)) (Hseq : forall l, Forall P l -> P (PSeq l)).
+  Fixpoint pv_ind' (v : pv) : P v :=
+    match v with
+    | PNull => Hnull
+    | PBool b => Hbool b
+    | PNum n => Hnum n
+    | PInd id => Hind id
+    | PSeq l => Hseq l ((fix go (l : list pv) : Forall P l :=
+                           match l with
+                           | [] => Forall_nil P
+                           | x :: xs => Forall_cons x (pv_ind' x) (go xs)
+                           end) l)
+    end.
+End PvInd.
+
+(* what was written with the individuals replaced by ids is written back unchanged *)
+Lemma replace_id_pv_of_jv : forall v, replace_id (pv_of_jv (replace_id v)) = replace_id v.
+Proof.
+  induction v using pv_ind'; simpl; try reflexivity.
+  f_equal. rewrite !map_map. apply map_ext_in. intros a Ha. rewrite Forall_forall in H. apply H. exact Ha.
+Qed.
+
+Lemma replace_features_reload f :
+  replace_features (map (fun p => (fst p, pv_of_jv (snd p))) (replace_features f)) = replace_features f.
+Proof.
+  unfold replace_features. rewrite !map_map. apply map_ext. intros [k v]. simpl. rewrite replace_id_pv_of_jv. reflexivity.
+Qed.
+
+(* Re-opening a file in write mode and synchronising a reloaded individual again: the view shows the
+   same id, vector, costs, signed costs, population id, algorithm id, custom data and feature values;
+   the state becomes null (Individual.to_string of a string) and the row loses its parents / children *)
+Theorem reload_resync : forall x k,
+  from_dict (to_dict (loaded_of_row k (to_dict x))) =
+  Some {| v_id := v_id (view_of x); v_vector := v_vector (view_of x); v_costs := v_costs (view_of x);
+          v_state := JNull; v_costs_signed := v_costs_signed (view_of x);
+          v_population_id := v_population_id (view_of x); v_algorithm_id := v_algorithm_id (view_of x);
+          v_custom := v_custom (view_of x); v_features := v_features (view_of x) |} /\
+  i_parents (loaded_of_row k (to_dict x)) = [] /\ i_children (loaded_of_row k (to_dict x)) = [].
+Proof.
+  intros x k. rewrite from_to_dict. unfold loaded_of_row. rewrite from_to_dict.
+  split; [|split; reflexivity]. f_equal. unfold view_of. cbn -[replace_features].
+  rewrite replace_features_reload. reflexivity.
+Qed.
